@@ -500,7 +500,8 @@ namespace occa {
       skipTo("\"\n");
 
       // Handle error outside of here
-      if (*fp.start == '\n') {
+      // (the source can also end before the closing ")
+      if (*fp.start != '"') {
         printError("Not able to find a closing \"");
         pop();
         return false;
@@ -523,8 +524,9 @@ namespace occa {
       push();
 
       // Find delimiter
+      // (the source can also end before the delimiter)
       skipTo("(\n");
-      if (*fp.start == '\n') {
+      if (*fp.start != '(') {
         pop();
         popAndRewind();
         return;
@@ -780,7 +782,8 @@ namespace occa {
       ++fp.start; // Skip '
       push();
       skipTo("'\n");
-      if (*fp.start == '\n') {
+      // (the source can also end before the closing ')
+      if (*fp.start != '\'') {
         printError("Not able to find a closing '");
         popAndRewind();
         pop();
